@@ -67,22 +67,33 @@ func counterCall(p *Prog, v ssa.Value) *ssa.Call {
 			if c == nil || c.Blocks == nil {
 				return nil
 			}
-			ok := false
-			for _, b := range c.Blocks {
-				ret, isRet := b.Instrs[len(b.Instrs)-1].(*ssa.Return)
-				if !isRet || len(ret.Results) != 1 {
-					continue
+			// the callee increments the sender's counter atomically (sync/atomic.AddUint64 on the field, or the Add
+			// method of a typed atomic field) and every value it returns derives from that increment
+			var add *ssa.Call
+			forEachCallOwn(c, func(site ssa.CallInstruction) {
+				ac, isCall := site.(*ssa.Call)
+				if !isCall {
+					return
 				}
-				ok = false
-				for _, s := range p.Sources(ret.Results[0], false) {
-					if s.Kind == "call" && strings.HasPrefix(s.Desc, "sync/atomic.Add") {
-						if call, isCall := s.Val.(*ssa.Call); isCall && len(call.Call.Args) > 0 && strings.HasSuffix(Path(call.Call.Args[0]), "."+FN("Sender.msgNum")) {
-							ok = true
-						}
+				f := ac.Call.StaticCallee()
+				if f == nil || fnPkgPath(f) != "sync/atomic" || !strings.HasPrefix(f.Name(), "Add") || len(ac.Call.Args) == 0 {
+					return
+				}
+				if strings.HasSuffix(Path(ac.Call.Args[0]), "."+FN("Sender.msgNum")) {
+					add = ac
+				}
+			})
+			ok := add != nil
+			if add != nil {
+				t := forwardTaint(add)
+				for _, b := range c.Blocks {
+					ret, isRet := b.Instrs[len(b.Instrs)-1].(*ssa.Return)
+					if !isRet || len(ret.Results) != 1 {
+						continue
 					}
-				}
-				if !ok {
-					return nil
+					if !t[ret.Results[0]] {
+						ok = false
+					}
 				}
 			}
 			if ok {
@@ -600,5 +611,21 @@ func c13Alignment(p *Prog, ls *Lockset, r *Report) {
 		offs := sizes.Offsetsof(fields)
 		r.Check("R9", "field:"+v.Key, offs[idx]%8 == 0, p.Pos(fields[idx].Pos()), fmt.Sprintf("offset %d under 386 sizes", offs[idx]))
 	}
-	r.Floor("R9", "64-bit atomic fields", n, 4)
+	// fields of type sync/atomic.Uint64 / Int64 are aligned by the type itself: they count as instances that hold
+	nTyped := 0
+	for _, tn := range []string{"Sender", "SubscriptionManager", "BindingManager", "HeartbeatManager"} {
+		nt := p.LookupType("spine", tn)
+		if nt == nil {
+			continue
+		}
+		if st, ok := nt.Underlying().(*types.Struct); ok {
+			for i := 0; i < st.NumFields(); i++ {
+				if named := namedOf(st.Field(i).Type()); named != nil && named.Obj().Pkg() != nil && named.Obj().Pkg().Path() == "sync/atomic" && (named.Obj().Name() == "Uint64" || named.Obj().Name() == "Int64") {
+					nTyped++
+					r.Pass("R9", "field:"+tn+"."+st.Field(i).Name(), p.Pos(st.Field(i).Pos()), "typed atomic: 8-byte alignment is guaranteed by sync/atomic."+named.Obj().Name())
+				}
+			}
+		}
+	}
+	r.Floor("R9", "64-bit atomic fields", n+nTyped, 4)
 }
